@@ -106,6 +106,11 @@ func runIsolated(o *Out, lines []string, timeout time.Duration) {
 		}
 	}()
 	for _, line := range lines {
+		if o.nOracle >= 12 {
+			// enough counterexamples: do not spend a watchdog period on every remaining case
+			o.count("stopped-after-12-violations")
+			break
+		}
 		if child == nil {
 			child = startChild()
 		}
